@@ -477,8 +477,8 @@ func c10BytesWrapper(c *Ctx) error {
 	m := c10Registry()
 	corpus := c10Corpus(c.Repo, 60000)
 	var pool [][]byte
-	for _, v := range corpus {
-		pool = append(pool, v...)
+	for _, mt := range c10Types { // fixed order: every random choice must replay exactly
+		pool = append(pool, corpus[mt]...)
 	}
 	n := c.N(1500, 40000)
 	var lines []string
@@ -568,8 +568,8 @@ func c10Sweep(c *Ctx) error {
 	st := c.R.StartStage("totality-sweep", "all six minifiers (default and non-default options, precisions -1..30) and exported helpers (Number, Decimal, Mediatype, DataURI, svg ShortenPathData via documents) on corpus documents and byte-level mutations / splices / truncations / non-UTF-8 insertions, under recover with a 30 s timeout per call and a time bound of 5 s + 2 ms/byte; deep nesting (200 000 levels of every bracket kind) in a subprocess; non-trivial = mutated input")
 	corpus := c10Corpus(c.Repo, 200000)
 	var pool [][]byte
-	for _, v := range corpus {
-		pool = append(pool, v...)
+	for _, mt := range c10Types { // fixed order: every random choice must replay exactly
+		pool = append(pool, corpus[mt]...)
 	}
 	n := c.N(2500, 80000)
 	for k := 0; k < n; k++ {
